@@ -182,6 +182,21 @@ def zero_variants(case):
     return out
 
 
+def long_ellipsis_cases():
+    """an ellipsis with many repetitions (more than ten: positions need two digits) over pairwise different lengths: the
+    system is trivially uniquely solvable, every repetition's length is the corresponding dimension"""
+    out = []
+    primes = [2, 3, 5, 7, 11, 13, 17, 19, 23, 29, 31, 37, 41, 43, 47, 53, 59, 61, 67, 71, 73, 79, 83, 89]
+    for r in (3, 10, 11, 12, 21, 24):
+        shape = primes[:r]
+        for toks, shp, L, rho in ((["a", "..."], shape, {"a.%d" % i: v for i, v in enumerate(shape)}, {"a": r}),
+                                  (["b", " ", "a", "..."], [4] + shape, dict({"a.%d" % i: v for i, v in enumerate(shape)}, b=4), {"a": r}),
+                                  (["(", "a", " ", "2", ")", "..."], [2 * v for v in shape], {"a.%d" % i: v for i, v in enumerate(shape)}, {"a": r})):
+            out.append({"toks": toks, "shapes": [list(shp)], "kw": [], "verdict_axes": "unique", "verdict_shapes": "unique", "nsol": 1, "propagate": True,
+                        "sol": [{"L": dict(L), "rho": dict(rho), "shapes": [list(shp)]}], "long_ellipsis": r, "opaque_solvable": False})
+    return out
+
+
 def run(tier):
     rep = common.Report("C02", tier)
     rep.rule = ("systems = expression list from the pool x hidden assignment x {no perturbation, +1 on one dimension, last dimension dropped} x at most one unknown "
@@ -208,7 +223,9 @@ def run(tier):
         extra3 = extra3[::7]
     rep.extra["scaled_unknown_axis_cases"] = len(extra2)
     rep.extra["zero_size_cases"] = len(extra3)
-    items += extra + extra2 + extra3
+    extra4 = long_ellipsis_cases()
+    rep.extra["long_ellipsis_cases"] = len(extra4)
+    items += extra + extra2 + extra3 + extra4
     results = common.parallel_map("run_chunk", DS, items)
     verd = {}
     for c, fs in zip(items, results):
